@@ -23,13 +23,13 @@ var suitesByProp = map[string][]func(*runner, *rng){
 	"C01": {suiteSrt},
 	"C02": {suiteVtt},
 	"C04": {suiteSsa, suiteSsaModel},
-	"C17": {suiteSchedules},
+	"C17": {suiteSchedules, suiteStlIO},
 	"C19": {suiteDeterminism},
 	"C08": {suiteTotality, suiteTeletextHostile},
 	"C06": {suiteTeletext, suiteTeletextModel},
 	"C07": {suiteConvert, suiteConvertModel, suiteConvertOps, suiteConvertCLI, suiteConvertRich, suiteConvertPlain},
 	"C20": {suiteConcurrency},
-	"C18": {suiteFaults},
+	"C18": {suiteFaults, suiteStlIO},
 	"C03": {suiteTtml},
 	"C05": {suiteStl},
 }
